@@ -166,7 +166,17 @@ func GetSignalCells(
 
 	// Find the number of signal cells, ignoring any padding.
 
-	numSignalCells := utils.GetNumberOfSignalCells(bitStream, pos, bitsPerCell)
+	// The cell mask in the header says how many signal cells the message
+	// carries.  The fields are laid out field by field (all the range deltas,
+	// then all the phase range deltas ...) so the cell count must come from
+	// the mask, not from the length of the data - trailing padding and the CRC
+	// are indistinguishable from cell data.  The data left in the bit stream
+	// limits the number of cells that can be present.
+	cellsAvailable := (len(bitStream)*8 - int(pos)) / int(bitsPerCell)
+	numSignalCells := header.NumSignalCells
+	if cellsAvailable < numSignalCells {
+		numSignalCells = cellsAvailable
+	}
 
 	if header.MultipleMessage {
 		// The message doesn't contain all the signal cells but there should be
